@@ -81,6 +81,7 @@ let parse_msg s : msg =
 
 let str_err = function
   | EEOF -> "eof"
+  | ERawEOF -> "eof"
   | ETimedOut -> "timeout"
   | EKafka c -> "k" ^ hex_of_z c
   | EFuel -> "FUEL"
@@ -92,6 +93,21 @@ let str_off (o : z) =
   | -1 -> "end" | -2 -> "start" | _ -> hex_of_z o
 
 (* ---- l1 ---- *)
+(* the property on one fetch, evaluated on the REAL code's result "<msgs>;<err>;<final>" *)
+let l1_prop fs (go : string) : string =
+  match List.assoc_opt "log" fs with
+  | None -> "na"
+  | Some l ->
+    (match String.split_on_char ';' go with
+     | [ms; _e; final] when final <> "start" && final <> "end" ->
+       let log = parse_records l in
+       let ms = if ms = "." then [] else List.map parse_msg (split_on ',' ms) in
+       let off = z_of_hex (get fs "off") and fin = z_of_hex final in
+       if fetch_okb log off ms fin then
+         (if int_of_z fin < int_of_z off then "REGRESS" else "ok")
+       else "VIOLATED"
+     | _ -> "VIOLATED")
+
 let eval_l1 fs =
   let blobs = parse_blobs (get fs "blobs") in
   let off = z_of_hex (get fs "off") and hwm = z_of_hex (get fs "hwm") in
@@ -101,11 +117,7 @@ let eval_l1 fs =
   match fetch_run (decomp_of blobs) big_fuel off hwm bytes declared late with
   | None -> "panic"
   | Some ((ms, e), final) ->
-    let base = Printf.sprintf "%s;%s;%s" (str_msgs ms) (str_err e) (str_off final) in
-    (* the property on this fetch, when the case names the log it was cut from *)
-    (match List.assoc_opt "log" fs with
-     | None -> base
-     | Some l -> base)
+    Printf.sprintf "%s;%s;%s" (str_msgs ms) (str_err e) (str_off final)
 
 (* ---- enc ---- *)
 let eval_enc fs =
@@ -221,12 +233,15 @@ let eval (op : string) (ws : string list) : string =
 
 let () =
   run_lines (fun line ->
-    let line = (match String.index_opt line '|' with
-        | Some i -> String.trim (String.sub line 0 i)
-        | None -> line) in
-    match words line with
+    let parts = String.split_on_char '|' line in
+    let head = String.trim (List.hd parts) in
+    let go = (match parts with _ :: g :: _ -> String.trim g | _ -> "") in
+    match words head with
     | id :: op :: rest ->
-      (try id ^ " " ^ eval op rest with
+      (try
+         let r = id ^ " " ^ eval op rest in
+         if op = "l1" && go <> "" then r ^ "\n" ^ id ^ ".prop " ^ l1_prop (fields rest) go else r
+       with
        | Failure m -> id ^ " DRIVER-ERROR " ^ m
        | Not_found -> id ^ " DRIVER-ERROR not_found"
        | Stack_overflow -> id ^ " DRIVER-ERROR stack_overflow")
